@@ -664,9 +664,17 @@ fn known_hit_violations(sc: &Scenario, out: &Outcome, report: &mut RunReport) {
             *report.counters.entry("probe_c16_unrecorded_without_foreign_material".into()).or_default() += 1;
             continue;
         }
+        // what the party did to itself stays in the history: on the message queue the name on a
+        // message is the sender's authenticated identity, so a forged message under this party's
+        // name that only ever travels through the message queue was sent by this very party
+        let through_http: std::collections::BTreeSet<u32> = prefix
+            .iter()
+            .filter_map(|e| if let Event::Deliver { id, .. } = e { Some(*id) } else { None })
+            .collect();
+        let own_doing = |e: &Event| matches!(e, Event::Forge { id, as_party, .. } if *as_party == hit.producer && !through_http.contains(id));
         let without_foreign: Vec<Event> = prefix
             .iter()
-            .filter(|e| !matches!(e, Event::Forge { .. }))
+            .filter(|e| !matches!(e, Event::Forge { .. }) || own_doing(e))
             .map(|e| match e {
                 Event::DeliverDmqBatch { ids, .. } => Event::DeliverDmqBatch { ids: ids.clone(), junk_at: vec![] },
                 other => other.clone(),
